@@ -275,6 +275,8 @@ def build(spec, decorate=None, on_action=None, budget=30):
           tgt = r[1]
         rt.log.append(("SIG", i, name, k))
         run_actions(i, name, chart, e)
+        if k == "none":
+          return None          # malformed handler: no status for an offered event (C24)
         if k == "handle":
           status = HANDLED
         elif k == "decline":
